@@ -134,6 +134,8 @@ fn timestamp_from_groups(col: &ColSpec, refs: &[(String, u64)], ctx: &HashMap<St
     if !frac_ok { if let Some(us) = us { if (1_000_000..2_000_000).contains(&us) { if let Some(t) = ts_from_parts(parts[0], parts[1], parts[2], parts[3], parts[4], parts[5], 0) { return Accept::of(vec![RV::Null, default, RV::Ts(t + us)], "fraction-over-one-second"); } } } }
     match ts {
         None => Accept::of(vec![RV::Null, default], "part-out-of-range"),
+        // years near the end of the calendar a date library supports may or may not be representable
+        Some(t) if parts[0].abs() > 200_000 => Accept::of(vec![RV::Null, default, RV::Ts(t)], "year-near-calendar-limit"),
         Some(t) => if month_absent { Accept::of(vec![RV::Null, default, RV::Ts(t)], "month-group-absent") } else { Accept::one(RV::Ts(t), "assembled") },
     }
 }
